@@ -43,6 +43,7 @@ type Cex struct {
 	Order   []string               `json:"order"`
 	Solver  string                 `json:"solver"`
 	Trace   []string               `json:"trace,omitempty"`
+	SchedForks int                 `json:"sched_forks,omitempty"` // non-default scheduling choices on the failing path
 	File    string                 `json:"-"`
 }
 
@@ -556,7 +557,7 @@ func (e *Engine) writeScript(asserts []*term.Term, label string) string {
 }
 
 func (e *Engine) mkCex(label, site, solver string, model map[string]smt.ModelVal) *Cex {
-	c := &Cex{Harness: e.Opt.Harness, Label: label, Site: site, Case: e.Opt.Case, Params: e.in.Cfg.Params, Values: map[string]interface{}{}, Solver: solver, Trace: e.trace}
+	c := &Cex{Harness: e.Opt.Harness, Label: label, Site: site, Case: e.Opt.Case, Params: e.in.Cfg.Params, Values: map[string]interface{}{}, Solver: solver, Trace: e.trace, SchedForks: e.in.schedForks}
 	for _, n := range e.nondets {
 		c.Order = append(c.Order, n.Name)
 		if n.Kind == "choose" {
